@@ -889,7 +889,14 @@ def search(ctx, seeds, full=False):
                 if len(fails) >= 5:
                     break
                 continue
-            small = shrink_arg(arg, mask, kindword) if type(arg) is dict else arg
+            small = arg
+            if isinstance(arg, collections.abc.Mapping) and type(arg) is not dict:
+                plain = dict(arg.items())               # same value objects, so sharing is kept
+                w = oracle(plain, mask)
+                if w and w.split(':')[0] == kindword:
+                    small = plain
+            if type(small) is dict:
+                small = shrink_arg(small, mask, kindword)
             try:
                 tree = Enc().val(small)
             except Exception:
